@@ -89,6 +89,8 @@ class JSONRPC2Connection:
         # line for the JSON request.
         while line != "\r\n":
             line = self.conn.readline()
+            if length is None and line != "\r\n":
+                length = self._read_header_content_length(line)
         body = self.conn.read(length)
         log.debug(
             "RECV %s", json.dumps(json.loads(body), separators=(",", ":"), indent=2)
